@@ -102,7 +102,16 @@ type analysis struct {
 	part      int
 	feats     map[string]bool
 	updating  bool
-	seq       []int // class id per occurrence, in walk order (binding structure fingerprint)
+	seq       []int  // class id per occurrence, in walk order (binding structure fingerprint)
+	occPart   []int  // query part of each occurrence
+	occDecl   []bool // the occurrence is a variable position of a MATCH pattern
+	inDecl    bool
+}
+
+// flags select optional extra separation rules (used while the corresponding finding is open)
+type sepFlags struct {
+	strict  bool // aliases differ from everything visible where they are computed
+	perPart bool // a variable declared by a MATCH pattern shares its name with nothing else that occurs in the same query part
 }
 
 func analyse(q *cypher.RegularQuery) (a *analysis, err error) {
@@ -165,6 +174,8 @@ func (a *analysis) newClass(kind classKind, orig string) int {
 func (a *analysis) occV(v *cypher.Variable, c int) {
 	a.occs = append(a.occs, occurrence{v: v, class: c})
 	a.seq = append(a.seq, c)
+	a.occPart = append(a.occPart, a.part)
+	a.occDecl = append(a.occDecl, a.inDecl)
 }
 
 func (a *analysis) define(e *env, v *cypher.Variable, kind classKind) int {
@@ -257,7 +268,9 @@ func (a *analysis) pattern(e *env, parts []*cypher.PatternPart, local bool) {
 		}
 		if pp.Variable != nil && pp.Variable.Symbol != "" {
 			a.feats["path-variable"] = true
+			a.inDecl = !local
 			a.defineOrRef(e, pp.Variable, kPath)
+			a.inDecl = false
 		}
 		if pp.ShortestPathPattern || pp.AllShortestPathsPattern {
 			a.feats["shortest-path"] = true
@@ -271,6 +284,7 @@ func (a *analysis) patternElements(e *env, elems []*cypher.PatternElement, local
 	if local {
 		nk, rk = kLocal, kLocal
 	}
+	a.inDecl = !local
 	for _, el := range elems {
 		if el == nil {
 			continue
@@ -285,6 +299,7 @@ func (a *analysis) patternElements(e *env, elems []*cypher.PatternElement, local
 			}
 		}
 	}
+	a.inDecl = false
 	for _, el := range elems {
 		if el == nil {
 			continue
@@ -441,6 +456,8 @@ func (a *analysis) expr(e *env, x any) {
 		}
 		a.occs = append(a.occs, occurrence{p: t, class: c})
 		a.seq = append(a.seq, c)
+		a.occPart = append(a.occPart, a.part)
+		a.occDecl = append(a.occDecl, false)
 		return
 	case *cypher.Quantifier:
 		if t != nil {
@@ -540,7 +557,7 @@ func (a *analysis) walk(e *env, v reflect.Value, top bool) {
 // ---- renaming ----
 
 // conflicts returns, for every class, the set of classes whose name it must differ from.
-func (a *analysis) conflicts(strict bool) []map[int]bool {
+func (a *analysis) conflicts(f sepFlags) []map[int]bool {
 	out := make([]map[int]bool, len(a.classes))
 	for i := range out {
 		out[i] = map[int]bool{}
@@ -557,9 +574,36 @@ func (a *analysis) conflicts(strict bool) []map[int]bool {
 	for _, r := range a.regions {
 		add(r)
 	}
-	if strict {
+	if f.strict {
 		for _, r := range a.strict {
 			add(r)
+		}
+	}
+	if f.perPart {
+		decl := map[int]map[int]bool{} // part -> classes declared by its MATCH patterns
+		used := map[int]map[int]bool{}
+		for i, c := range a.seq {
+			if a.classes[c].Kind == kParam {
+				continue
+			}
+			k := a.occPart[i]
+			if used[k] == nil {
+				used[k], decl[k] = map[int]bool{}, map[int]bool{}
+			}
+			used[k][c] = true
+			if a.occDecl[i] {
+				decl[k][c] = true
+			}
+		}
+		for k, ds := range decl {
+			for d := range ds {
+				for c := range used[k] {
+					if c != d {
+						out[c][d] = true
+						out[d][c] = true
+					}
+				}
+			}
 		}
 	}
 	for _, p := range a.apart {
@@ -588,8 +632,8 @@ func (a *analysis) conflicts(strict bool) []map[int]bool {
 }
 
 // admissible reports whether names (one per class) keep every region injective.
-func (a *analysis) admissible(names []string, strict bool) bool {
-	conf := a.conflicts(strict)
+func (a *analysis) admissible(names []string, f sepFlags) bool {
+	conf := a.conflicts(f)
 	for i, set := range conf {
 		for j := range set {
 			if names[i] == names[j] {
